@@ -34,6 +34,40 @@ CHECKS = {
    ref="3 C14"),
 }
 
+SRC_NOTE = ("Trusted base: the harness's own generators and reference oracles (internal/pgen printer, reflection-based AST walker "
+            "cmd/vh/astdump.go, per-check reference code); the real martian/syntax, martian/core packages and mro/mrg/mrp binaries are the "
+            "system under observation, executed in child processes so that a crash identifies its input. Verdicts hold for the inputs explored only.")
+
+CHECKS.update({
+ "C07": dict(level="exploration", tech="runtime monitoring of pipestances under --strict=error + compile-time mutation testing with located-error oracle", note=FLOW_NOTE,
+   text="Soundness: compiler-accepted generated programs over the whole type language run by the real mrp with --strict=error and type-conforming probe outputs; any run-time binding/validation error or crash, or any delivered argument failing the harness's own type validator, is a violation. Completeness: single-point ill-typed mutations of valid programs must be rejected by the real compiler with an error positioned inside the mutated call statement.",
+   ref="3 C07"),
+ "C08": dict(level="exploration", tech="hostile-input campaign in child processes (crash = violation with the input on disk), allocation-based proportionality monitor", note=SRC_NOTE,
+   text="Token-level mutants of generated and repository MRO sources (numbers at/over int64/float32/float64 range, every escape form, empty strings, keywords as identifiers, truncations, invalid UTF-8), expression mutants, random bytes and scaling families are fed to ParseSourceBytes / UncheckedParse / FormatSrcBytes / ParseValExp in child processes: a crash, an error without source position, neither tree nor error, or super-linear allocation growth is a violation.",
+   ref="3 C08"),
+ "C09": dict(level="exploration", tech="round-trip monitoring of the real formatter with an independent reflection-based AST comparison and tracked comments", note=SRC_NOTE,
+   text="Generated multi-file programs with every literal form and optional clause, surface syntax randomised with tracked comments: Format output must re-parse to a structurally equal tree, lose no comment, be a fixed point when all comments precede elements, compile to the same callables/call graph, and the include-expanded rendering must compile standalone to the same.",
+   ref="3 C09"),
+ "C10": dict(level="exploration", tech="repetition monitor: byte equality of every artefact over R in-process repetitions x P fresh processes, plus paired mrp runs", note=SRC_NOTE,
+   text="Programs with wide map/struct literals, typed-map map calls, retains and multi-error variants: formatted text, include-expanded source, error text, call-graph JSON/GoString and AST JSON must be byte-identical over R repetitions in P processes (an unsorted map traversal survives R*P draws with probability <= 2^-(RP-1)); two mrp runs of one program must give identical listings and per-fork _invocation bytes.",
+   ref="3 C10"),
+ "C11": dict(level="exploration", tech="key-space exploration through tag-guarded wrappers around the real fork-name / journal-name / journal-parse code + adversarial-key pipestances", note=FLOW_NOTE,
+   text="Random nestings of map/array dimensions with adversarial keys and boundary lengths: all forks of a call get pairwise distinct directory and journal names and every journal file name routes back to exactly its (fork, chunk, attempt, file); pipestances mapped over adversarial key pools complete without dataflow/exactly-once findings or journal warnings.",
+   ref="3 C11"),
+ "C12": dict(level="exploration", tech="race-detector build + porcupine linearizability checking of recorded client-boundary histories + sequential differential driver", note="Trusted base: porcupine v1.3.0, the sequential reference models in cmd/vh/check_c12.go, the Go race detector. The real core.ResourceSemaphore / MaxJobsSemaphore / job managers are driven through their exported API.",
+   text="Concurrent random Acquire/Release/Update*/getter histories on the real ResourceSemaphore and MaxJobsSemaphore are recorded at the client boundary and checked against sequential models with porcupine (Unknown = inconclusive); a sequential driver checks FIFO grants, exact getters and no lost wake-up against a reference queue; request normalisation is checked against the configured limits; the check binary is built with -race and reports in the semaphore files are violations.",
+   ref="3 C12"),
+ "C15": dict(level="exploration", tech="labelled-edit differential monitoring of Ast.EquivalentCall and of real mrp re-attach / lock behaviour", note=SRC_NOTE,
+   text="For generated programs, one labelled cosmetic or semantic edit in the closure of the top-level call: EquivalentCall (both directions) and the real mrp on an existing pipestance must accept cosmetic and refuse semantic edits; further mrp processes started while the first holds _lock must be refused.",
+   ref="3 C15"),
+ "C17": dict(level="exploration", tech="differential monitoring of the real Type.IsValidJson / FilterJson / IsAssignableFrom against an independent reference validator/filter", note=SRC_NOTE,
+   text="Random type universes compiled by the real compiler; conforming values and typed single-point near-miss mutants (wrong depth, numbers as strings, floats for ints, extra/missing/duplicate fields, nulls, odd whitespace): filter idempotence and conservativeness, validity after filtering to an assignable type, validation verdicts and componentwise assignability are compared with a reference that shares no code with martian.",
+   ref="3 C17"),
+ "C19": dict(level="exploration", tech="edit-and-recompile monitoring of the real refactoring package applied the way mro edit applies it", note=SRC_NOTE,
+   text="Every applicable rename/remove edit on every callable and parameter of generated multi-file programs: edited files must compile, call-graph JSON must equal the original modulo the renamed identifier, removals keep nodes / resolved top-level outputs, and rename followed by its inverse restores the compiled program.",
+   ref="3 C19"),
+})
+
 props = [json.loads(l) for l in open('/verif/properties.jsonl')]
 hooks = subprocess.run(['git', '-C', '/repo', 'log', '--format=%h %s', 'e7a547a..HEAD'], capture_output=True, text=True).stdout.strip().split('\n')
 hook_commits = [h.split()[0] for h in hooks if 'verif hooks' in h]
@@ -71,7 +105,7 @@ m = {
  "engines": [
    {"name": "vh", "path": "/verif/harness/cmd/vh", "serves_properties": [c["property_id"] for c in checks],
     "kind_free_text": "Go driver: program generator + reference model (internal/pgen), pipestance runner (internal/vrun), event-log monitors (internal/vmon), verdict/evidence/known-findings framework (internal/vf)"},
-   {"name": "probe", "path": "/verif/harness/cmd/probe", "serves_properties": ["C01","C02","C03","C04","C05","C06","C13","C14"],
+   {"name": "probe", "path": "/verif/harness/cmd/probe", "serves_properties": ["C01","C02","C03","C04","C05","C06","C07","C10","C11","C13","C14","C15"],
     "kind_free_text": "universal stage executable run under the real mrjob; records start/end events, arguments, file checks; deterministic type-shaped outputs; fault/delay behaviour file"},
  ],
  "checks": checks,
